@@ -79,6 +79,7 @@ type PartsResp struct {
 	Resp      Resp
 	Nums      []string
 	ETags     []string
+	Sizes     []int64
 	Truncated bool
 	Next      int
 }
@@ -107,6 +108,7 @@ func (s *Sess) ListParts(b, k, uid string, marker, limit int) PartsResp {
 			o.contents = append(o.contents, hs(strconv.Itoa(p.PartNumber))+":"+strconv.FormatInt(p.Size, 10)+":"+hs(p.ETag))
 			out.Nums = append(out.Nums, strconv.Itoa(p.PartNumber))
 			out.ETags = append(out.ETags, p.ETag)
+			out.Sizes = append(out.Sizes, p.Size)
 		}
 		o.truncated = px.IsTruncated
 		o.next = strconv.Itoa(px.Next)
@@ -239,7 +241,8 @@ func c06BackendRefusal(prop, kind string) {
 		}
 		nontrivial(kind + "|backend-refuses-complete|" + sc[1])
 		lp := s.ListParts(b, sc[1], id, -1, -1)
-		verdict(lp.Resp.Status == 200 && len(lp.Nums) == 1 && lp.Nums[0] == "1", "after a complete refused by the backend ("+kind+", key "+sc[1]+") the pending upload keeps its parts: list-parts answers "+fmt.Sprint(lp.Resp.Status, lp.Nums))
+		verdict(lp.Resp.Status == 200 && len(lp.Nums) == 1 && lp.Nums[0] == "1" && lp.Sizes[0] == int64(len("part one")) && lp.ETags[0] == et,
+			"after a complete refused by the backend ("+kind+", key "+sc[1]+") the pending upload keeps its parts, sizes and ETags: list-parts answers "+fmt.Sprint(lp.Resp.Status, lp.Nums, lp.Sizes, lp.ETags))
 		lu := s.ListUploads(b, "", "", "", "", -1)
 		found := false
 		for _, e := range lu.Entries {
@@ -250,14 +253,70 @@ func c06BackendRefusal(prop, kind string) {
 		verdict(found, "after a complete refused by the backend the upload is still listed by ListMultipartUploads: "+fmt.Sprint(lu.Entries))
 		g := do(s.h, Req{Method: "GET", Path: "/" + b + "/" + pathEscape(sc[0])})
 		verdict(g.Status == 200 && string(g.Body) == "in the way", "the object in the way is untouched")
+		if sc[0] == "blk" {
+			// ... and once the obstacle is gone the same request completes the upload: the object is the parts' bytes
+			s.Delete(b, sc[0])
+			r2 := s.Complete(b, sc[1], id, []CPart{{1, et}})
+			g2 := do(s.h, Req{Method: "GET", Path: "/" + b + "/" + pathEscape(sc[1])})
+			verdict(r2.Status == 200 && g2.Status == 200 && string(g2.Body) == "part one", fmt.Sprintf("the complete refused by the backend succeeds when repeated after the object in the way is deleted (%d) and the object is the uploaded part: GET answers %d %q", r2.Status, g2.Status, truncate(g2.Body, 40)))
+			continue
+		}
 		ab := s.Abort(b, sc[1], id)
 		verdict(ab.Status == 204, "and the upload can still be aborted: "+fmt.Sprint(ab.Status))
 	}
+	// the same on every backend: the bucket is deleted under the pending upload (so the backend refuses
+	// the object) and created again; the repeated complete stores the parts' bytes
+	if !isSingle(kind) {
+		nb := "bkrefuse"
+		s.MkBucket(nb)
+		id := s.Initiate(nb, "k", nil)
+		et := s.UploadPart(nb, "k", id, 1, []byte("part one"))
+		et2 := s.UploadPart(nb, "k", id, 2, []byte("part two"))
+		s.RmBucket(nb)
+		r := s.Complete(nb, "k", id, []CPart{{1, et}, {2, et2}})
+		s.MkBucket(nb)
+		if r.Status >= 400 {
+			lp := s.ListParts(nb, "k", id, -1, -1)
+			if lp.Resp.Status == 200 {
+				verdict(len(lp.Nums) == 2 && lp.Sizes[0] == 8 && lp.Sizes[1] == 8, "a complete refused because the bucket was gone leaves the parts as they were: list-parts answers "+fmt.Sprint(lp.Nums, lp.Sizes))
+				r2 := s.Complete(nb, "k", id, []CPart{{1, et}, {2, et2}})
+				g2 := do(s.h, Req{Method: "GET", Path: "/" + nb + "/k"})
+				verdict(r2.Status >= 400 || (g2.Status == 200 && string(g2.Body) == "part onepart two"), fmt.Sprintf("repeated after the bucket exists again the complete answers %d and GET %d %q", r2.Status, g2.Status, truncate(g2.Body, 40)))
+			}
+		}
+	}
+	s.end()
+}
+
+// c06ManyParts: an upload of more parts than one ListParts page holds (the limit on parts is
+// 10000, the page size 1000), completed with all of them
+func c06ManyParts(kind string, n int) {
+	s := newSess("c06", kind, SessOpts{})
+	b := singleBucketName
+	if !isSingle(kind) {
+		s.MkBucket(b)
+	}
+	id := s.Initiate(b, "many", []KV{{"X-Amz-Meta-Parts", strconv.Itoa(n)}})
+	var parts []CPart
+	for pn := 1; pn <= n; pn++ {
+		et := s.UploadPart(b, "many", id, pn, []byte{byte('a' + pn%26)})
+		parts = append(parts, CPart{pn, et})
+	}
+	s.ListParts(b, "many", id, -1, -1)
+	s.ListParts(b, "many", id, 1000, 5)
+	s.Complete(b, "many", id, parts)
+	s.Get(b, "many", "")
+	s.ListUploads(b, "", "", "", "", -1)
+	nontrivial(fmt.Sprint(kind, "many-parts", n))
 	s.end()
 }
 
 func runC06(tier string, seed uint64) {
 	rng := NewRng(seed)
+	c06ManyParts("mem", 1001)
+	if tier == "thorough" {
+		c06ManyParts("bolt", 2500)
+	}
 	for _, kind := range allKinds {
 		c06BackendRefusal("c06", kind)
 		mpSlowPart("c06", kind) // a part upload in flight while its upload is completed
@@ -401,7 +460,7 @@ func runC06(tier string, seed uint64) {
 			s.end()
 		}
 	}
-	sample("histories of 30 ops: initiate (with/without metadata) / upload-part n in {1..4, 7, 9999, 10000, 10001, 0, -1} incl. re-upload and empty body / complete (all parts ascending, subset, permutation, unknown number, wrong etag, duplicate, unquoted etags, empty list; each defect also combined with a subset list; a rejected complete is followed by list-parts) / abort / get / list-parts / list-uploads over 2 keys and several simultaneous uploads (upload ids also used through the other key's URL), on every backend; a complete refused by the backend itself (fs: key below an object / key is a directory) leaves the upload pending and listed")
+	sample("histories of 30 ops: initiate (with/without metadata) / upload-part n in {1..4, 7, 9999, 10000, 10001, 0, -1} incl. re-upload and empty body / complete (all parts ascending, subset, permutation, unknown number, wrong etag, duplicate, unquoted etags, empty list; each defect also combined with a subset list; a rejected complete is followed by list-parts) / abort / get / list-parts / list-uploads an upload of 1001 parts completed with all of them; over 2 keys and several simultaneous uploads (upload ids also used through the other key's URL), on every backend; a complete refused by the backend itself (fs: key below an object / key is a directory) leaves the upload pending and listed")
 }
 
 // ---------------------------------------------------------------- C14
@@ -416,12 +475,19 @@ func runC14(tier string, seed uint64) {
 		nseq = 400
 	}
 	keyPool0 := []string{"a", "b/x", "b/y", "c", "d/e/f", "ab", "b"}
-	// keys that begin with the delimiter, or with a byte that sorts before it
-	keyPool1 := []string{"/docs/c", "docs/a", ".cfg/x", "-tmp", "+in/1", "//x", "docs/b/z"}
+	// keys that begin with a byte that sorts before the delimiter (keys that begin with the delimiter itself: see keyPool2; and known finding D32 for what happens when their groups interleave)
+	keyPool1 := []string{"docs/c", "docs/a", ".cfg/x", "-tmp", "+in/1", ".x", "docs/b/z"}
+	// a key that begins with the delimiter next to the key it turns into when the delimiter is stripped
+	keyPool2 := []string{"/data", "c", "data"}
 	for i := 0; i < nseq; i++ {
 		keyPool := keyPool0
 		if i%4 == 3 {
 			keyPool = keyPool1
+		}
+		if i%8 == 5 {
+			// a fixed shape: "/data" is reported under the name "data" (its delimiter is stripped), "c" sorts
+			// between it and the plain key "data"; every upload must still be visited by every walk
+			keyPool = keyPool2
 		}
 		s := newSess("c14", "mem", SessOpts{})
 		b := singleBucketName
@@ -430,6 +496,16 @@ func runC14(tier string, seed uint64) {
 		nk := 2 + rng.Intn(4)
 		if i%3 == 0 {
 			nk = rng.Intn(2) // one or two keys: many uploads of the same key, removed from the middle of its list
+		}
+		protected := 0
+		if i%8 == 5 {
+			nk = len(keyPool2) - 1
+			for _, k := range keyPool2 { // one upload per key that stays pending whatever the history does
+				if id := s.Initiate(b, k, nil); id != "" {
+					ups = append(ups, &upl{key: k, id: id, etags: map[int]string{}})
+				}
+			}
+			protected = len(ups)
 		}
 		for j := 0; j < 14+rng.Intn(10); j++ {
 			switch w := rng.Intn(100); {
@@ -445,11 +521,17 @@ func runC14(tier string, seed uint64) {
 					u.etags[pn] = et
 				}
 			case w < 85:
-				x := rng.Intn(len(ups))
+				if len(ups) <= protected {
+					continue
+				}
+				x := protected + rng.Intn(len(ups)-protected)
 				s.Abort(b, ups[x].key, ups[x].id)
 				ups = append(ups[:x], ups[x+1:]...)
 			default:
-				x := rng.Intn(len(ups))
+				if len(ups) <= protected {
+					continue
+				}
+				x := protected + rng.Intn(len(ups)-protected)
 				u := ups[x]
 				var nums []int
 				for n := range u.etags {
